@@ -312,12 +312,36 @@ def png_decode(data):
     if ihdr is None or not seen_end:
         raise FormatError('missing IHDR/IEND')
     w, h, depth, ctype, comp, filt, inter = ihdr
-    if (depth, ctype, comp, filt, inter) != (8, 6, 0, 0, 0):
+    if (depth, ctype, comp, filt) != (8, 6, 0, 0) or inter not in (0, 1):
         raise FormatError('unsupported png layout %r' % (ihdr,))
     try:
         raw = zlib.decompress(b''.join(idat))
     except zlib.error as e:
         raise FormatError('zlib: %s' % e)
+    if inter == 1:
+        # Adam7: seven reduced images, each filtered on its own, stored one after the other
+        rows = [bytearray(w * 4) for _ in range(h)]
+        pos = 0
+        for x0, y0, dx, dy in ADAM7:
+            pw, ph = (w - x0 + dx - 1) // dx, (h - y0 + dy - 1) // dy
+            if pw <= 0 or ph <= 0:
+                continue
+            size = ph * (pw * 4 + 1)
+            sub = _unfilter(raw[pos:pos + size], pw, ph)
+            pos += size
+            for j, line in enumerate(sub):
+                for i in range(pw):
+                    rows[y0 + j * dy][(x0 + i * dx) * 4:(x0 + i * dx) * 4 + 4] = line[i * 4:i * 4 + 4]
+        if pos != len(raw):
+            raise FormatError('interlaced image data size %d != %d' % (len(raw), pos))
+        return w, h, rows
+    return w, h, _unfilter(raw, w, h)
+
+
+ADAM7 = ((0, 0, 8, 8), (4, 0, 8, 8), (0, 4, 4, 8), (2, 0, 4, 4), (0, 2, 2, 4), (1, 0, 2, 2), (0, 1, 1, 2))
+
+
+def _unfilter(raw, w, h):
     stride = w * 4
     if len(raw) != h * (stride + 1):
         raise FormatError('image data size %d != %d' % (len(raw), h * (stride + 1)))
@@ -348,17 +372,30 @@ def png_decode(data):
             raise FormatError('bad filter type %d' % ft)
         rows.append(line)
         prev = line
-    return w, h, rows
+    return rows
 
 
 def _chunk(typ, body):
     return struct.pack('>I', len(body)) + typ + body + struct.pack('>I', zlib.crc32(typ + body) & 0xffffffff)
 
 
-def png_encode(w, h, rows, filters=None, extra_chunks=(), idat_pieces=1):
+def png_encode(w, h, rows, filters=None, extra_chunks=(), idat_pieces=1, interlace=False):
     """rows: list of RGBA byte rows.  filters: optional list of filter types per row (0..4).  extra_chunks: ancillary chunks
     (type, data) placed between IHDR and IDAT, as image editors write them (gAMA, pHYs, bKGD, tEXt ...); idat_pieces: the compressed
     stream split over that many IDAT chunks."""
+    if interlace:
+        # Adam7 (what an image editor's "interlaced" option writes): seven reduced images, filter type 0
+        raw = bytearray()
+        for x0, y0, dx, dy in ADAM7:
+            if (w - x0 + dx - 1) // dx <= 0:
+                continue
+            for y in range(y0, h, dy):
+                raw.append(0)
+                for x in range(x0, w, dx):
+                    raw += bytes(rows[y][x * 4:x * 4 + 4])
+        z = zlib.compress(bytes(raw), 6)
+        return (PNG_SIG + _chunk(b'IHDR', struct.pack('>IIBBBBB', w, h, 8, 6, 0, 0, 1)) +
+                b''.join(_chunk(t, d) for t, d in extra_chunks) + _chunk(b'IDAT', z) + _chunk(b'IEND', b''))
     stride = w * 4
     raw = bytearray()
     prev = bytes(stride)
